@@ -764,6 +764,20 @@ impl Transaction {
         let (value_balance, shielded_spends, shielded_outputs) =
             sapling_serialization::read_v4_components(&mut reader, version.has_sapling())?;
 
+        // Consensus rule (§7.1): valueBalanceSapling MUST be zero if there are no Sapling
+        // spends or outputs. Such a value cannot be represented (the Sapling bundle is
+        // absent), so accepting it would make the parsed transaction serialize to different
+        // bytes than the ones its txid was computed from.
+        if shielded_spends.is_empty()
+            && shielded_outputs.is_empty()
+            && value_balance != ZatBalance::zero()
+        {
+            return Err(io::Error::new(
+                io::ErrorKind::InvalidData,
+                "valueBalance must be zero without Sapling spends or outputs",
+            ));
+        }
+
         let sprout_bundle = if version.has_sprout() {
             let joinsplits = Vector::read(&mut reader, |r| {
                 JsDescription::read(r, version.has_sapling())
